@@ -26,6 +26,7 @@ from asl.loader import AnalysisError, norm, own_nodes
 from asl.values import mentions
 from . import c01
 from .common import make_resolver
+from .common import present_units as _present
 from .lru import enumerate_paths
 
 LEVEL = {
@@ -63,11 +64,11 @@ def run(ctx) -> None:
                       ("R05.6", "sources visited in argument order (R01.4)")):
         ctx.rule(rid, text)
     ctx.tables["window (locals)"] = {f"{k[0]}:{k[1]}": v for k, v in WINDOW_LOCALS.items()}
-    for short in TOOLS:
+    for short in _present(ctx, TOOLS):
         u = ctx.unit(short)
         ctx.count("tools")
         r05_1(ctx, u)
-    for short in TOOLS + ["builtins._min_max", "builtins.sorted", "functools.reduce", "heapq._largest",
+    for short in _present(ctx, TOOLS) + ["builtins._min_max", "builtins.sorted", "functools.reduce", "heapq._largest",
                           "itertools._GroupByState.step"]:
         r05_2(ctx, ctx.unit(short))
     r05_3(ctx)
@@ -399,6 +400,11 @@ class _SliceOps:
         r = self.ctx.pkg.resolve_expr_global(self.module, func_node)
         return r.qual.split(".")[-1] if r.kind in ("stdlib", "builtin", "lib") else norm(func_node)
 
+    def awaited(self, v, env):
+        if isinstance(v, tuple) and len(v) == 2 and v[0] == "@coro":
+            return v[1]  # a private coroutine step of the library (e.g. the skipping loop): what it returned
+        return v
+
     def entered(self, item, env, ev):
         v = ev.eval(item.context_expr, env)
         return v
@@ -533,7 +539,8 @@ def r05_5(ctx, consumption=True) -> None:
         for n in (0, 2, 6):
             ctx.count("islice_cells")
             ops = _SliceOps(ctx, u.module, n)
-            outs = Machine(cfg, ops, resolver=make_resolver(ctx, u, ops, skip=("borrow", "aiter", "iter"))).run({p: "SRC", va: tuple(args)})
+            outs = Machine(cfg, ops, resolver=make_resolver(ctx, u, ops, skip=("borrow", "aiter", "iter"), coroutines=True)).run(
+                {p: "SRC", va: tuple(args)})
             want_y, want_c, want_e = _islice_spec(n, sl.start, sl.stop, sl.step)
             got = set()
             for oc in outs:
